@@ -8,7 +8,7 @@ spec/Pools.tla (EXTENDS Cache.tla: reference models of the pools, views, ZeroCop
      seeded perturbation, a paused tokio clock for the background manager)
   -> T_Pools judges every recorded event (binding T / E) and searches linearizations of the concurrent histories (as T_Lin).
 """
-import glob, json, os, random, threading
+import glob, json, os, random, shutil, threading, time
 from concurrent.futures import ThreadPoolExecutor
 from . import lib
 
@@ -139,7 +139,7 @@ def judge_and_classify(ctx, trace, source, kd):
     histogram(ctx, trace)
     v = judge(ctx, trace, kd)
     with LOCK:
-        ctx.stage("judge", source=source, events=v["events"], violations=v["nviol"], deviations=dict(v["devcount"]), wall_s=v["wall_s"])
+        stage(ctx, "judge", source=source, events=v["events"], violations=v["nviol"], deviations=dict(v["devcount"]), wall_s=v["wall_s"])
         for fid, n in v["devcount"].items():
             lib.note_known(ctx, fid, n)
             ctx.cov["deviations_observed"][fid] = ctx.cov["deviations_observed"].get(fid, 0) + n
@@ -181,6 +181,10 @@ def run_programs(ctx, progs, trace, shards):
 ENUMERATED = ("ngdp", "tl", "bbp", "zcp", "sized", "zce", "zcr", "zcc", "str", "bg")
 
 
+def stage(ctx, name, **kw):
+    ctx.stage(name, at_s=round(time.time() - ctx.t0, 1), **kw)
+
+
 def mc_constants(fams, depth):
     """depth: family -> 3 | 4 | 5"""
     return {"Fams": lib.tla_set(fams), "F4": lib.tla_set([f for f in fams if depth.get(f) == 4]),
@@ -219,7 +223,7 @@ def enumerate_all(ctx, depth):
         f = family_of(l)
         per[f] = per.get(f, 0) + 1
     with LOCK:
-        ctx.stage("mc-gen", depth={f: depth.get(f, 3) for f in ENUMERATED}, distinct_states=r["distinct"], programs=n,
+        stage(ctx, "mc-gen", depth={f: depth.get(f, 3) for f in ENUMERATED}, distinct_states=r["distinct"], programs=n,
                   programs_by_kind=per, wall_s=r["wall_s"])
     missing = [f for f in ENUMERATED + ("stream",) if not per.get(f)]
     if missing:
@@ -228,7 +232,7 @@ def enumerate_all(ctx, depth):
     trace = ctx.path("trace_all.ndjson")
     d = run_programs(ctx, progs, trace, shards=16)
     with LOCK:
-        ctx.stage("run", source="enumeration", programs=d.get("programs"), events=d.get("events"), hangs=d.get("hangs"), wall_s=d["wall_s"])
+        stage(ctx, "run", source="enumeration", programs=d.get("programs"), events=d.get("events"), hangs=d.get("hangs"), wall_s=d["wall_s"])
     if d.get("programs") != n:
         raise lib.ToolError(f"driver executed {d.get('programs')} of {n} programs")
     _, dn = lib.count_distinct(progs)
@@ -288,7 +292,7 @@ def design_level(ctx):
     trace = ctx.path("trace_witness.ndjson")
     lib.run_driver(DRV, ["--programs", p, "--out", trace])
     with LOCK:
-        ctx.stage("mc-design", refuted={k: m["refuted"] for k, m in model.items()}, witnesses=len(wit))
+        stage(ctx, "mc-design", refuted={k: m["refuted"] for k, m in model.items()}, witnesses=len(wit))
     return len(wit), trace, model
 
 
@@ -387,7 +391,7 @@ def conc_run(ctx):
     d1 = lib.run_driver(DRV, ["--programs", pl, "--out", tl_])
     d2 = lib.run_driver(DRV, ["--programs", ph, "--out", th])
     with LOCK:
-        ctx.stage("run", source="conc", lin_runs=d1.get("programs"), quiescent_runs=d2.get("programs"), hangs=d1.get("hangs", 0) + d2.get("hangs", 0))
+        stage(ctx, "run", source="conc", lin_runs=d1.get("programs"), quiescent_runs=d2.get("programs"), hangs=d1.get("hangs", 0) + d2.get("hangs", 0))
     if d1.get("programs") != len(lin) or d2.get("programs") != len(ham):
         raise lib.ToolError("driver did not execute every concurrent program")
     return len(lin) + len(ham), tl_, th
@@ -420,7 +424,7 @@ def lin_stage(ctx, tl_, kd):
                                  {"property": PROP, "source": "conc-lin", "program": {"kind": "conc", "cfg": r["cfg"]}, "history": r["ops"],
                                   "explanation": "TLC found no order of the operation parts, consistent with real-time order, in which the "
                                                  "sequential pool specification (Pools.tla PART P, property L) produces these results"})
-        ctx.stage("judge", source="conc-lin", runs=n, linearizable=len(strict), only_with_known_deviation=len(set(relaxed) - strict),
+        stage(ctx, "judge", source="conc-lin", runs=n, linearizable=len(strict), only_with_known_deviation=len(set(relaxed) - strict),
                   not_linearizable=len(bad), monitor_states=states)
         if len(ctx.cov["samples"]) < 6:
             ctx.cov["samples"].append({"source": "conc lin", "trace": [json.loads(lines[0])]})
@@ -717,6 +721,7 @@ def signature_trace(ctx, lines, ix):
     sample = [i for k in ("zcp", "sized", "zce", "zcc", "stream", "bg") for i in ix[k]]
     p = ctx.path("selftest_sig.ndjson")
     open(p, "w").write("\n".join(lines[i] for i in sample) + "\n")
+    shutil.copy(p, p + ".nodev")          # (two monitor passes run side by side, each splits its own copy)
     return p
 
 
@@ -763,7 +768,7 @@ def run(ctx):
     quick = ctx.quick
     global WIDE
     WIDE = not quick
-    depth = ({"ngdp": 4, "tl": 3, "bbp": 3, "zcp": 3} if quick else
+    depth = ({"ngdp": 4, "tl": 4, "bbp": 3, "zcp": 4} if quick else
              {"ngdp": 4, "tl": 4, "bbp": 4, "zcp": 4, "sized": 4, "zce": 4, "str": 4, "bg": 4})
     # ---- produce: concurrent runs first (alone on the machine as far as this check goes), then TLC + driver side by side
     nconc, tl_, th = conc_run(ctx)
@@ -775,7 +780,7 @@ def run(ctx):
         trace = ctx.path("trace_random.ndjson")
         d = run_programs(ctx, p, trace, shards=16)
         with LOCK:
-            ctx.stage("run", source="random", programs=d.get("programs"), events=d.get("events"), hangs=d.get("hangs"), wall_s=d["wall_s"])
+            stage(ctx, "run", source="random", programs=d.get("programs"), events=d.get("events"), hangs=d.get("hangs"), wall_s=d["wall_s"])
         if d.get("programs") != len(progs):
             raise lib.ToolError(f"driver executed {d.get('programs')} of {len(progs)} random programs")
         return lib.count_distinct(p)[1], trace
@@ -793,22 +798,28 @@ def run(ctx):
         pe, pd, sample, picks, ifd = selftest_traces(ctx, lines, ix)
         psig = signature_trace(ctx, lines, ix)
         del lines
-        sections = [("witness", t_wit), ("enum", t_enum), ("conc", th), ("random", t_rand), ("st_edited", pe), ("st_dropped", pd), ("st_sig", psig)]
-        for _, p in sections[:4]:
+        sections = [("enum", t_enum), ("conc", th), ("random", t_rand), ("st_edited", pe), ("st_dropped", pd)]
+        for p in (t_wit, t_enum, th, t_rand):
             histogram(ctx, p)
-        f_nodev = ex.submit(judge, ctx, psig, [], 30000, t_cfg(ctx, [], "t_pools_nodev.cfg")) if kd else None
+        f_wit = ex.submit(judge, ctx, t_wit, kd, 30000, t_cfg(ctx, kd))      # (apart: its deviation counts must be exact)
+        # (the signature sample is judged apart, with and without the deviations listed: its counts must be exact)
+        f_sig = ex.submit(judge, ctx, psig, kd, 30000, t_cfg(ctx, kd)) if kd else None
+        f_nodev = ex.submit(judge, ctx, psig + ".nodev", [], 30000, t_cfg(ctx, [], "t_pools_nodev.cfg")) if kd else None
         res = judge_sections(ctx, sections, kd)
+        w = f_wit.result()
+        res["witness"] = {"violations": w["violations"], "nviol": w["nviol"], "devcount": w["devcount"], "events": w["events"]}
+        sections.append(("witness", t_wit))
         lin_selftest = f_lin.result()
-        nodev = f_nodev.result() if f_nodev else None
+        sig, nodev = (f_sig.result(), f_nodev.result()) if kd else (None, None)
     labels = {"witness": "design-level witnesses", "enum": "MC_Pools enumeration", "conc": f"conc quiescent seed={ctx.seed}", "random": f"random seed={ctx.seed}"}
     for name, label in labels.items():
         r = res[name]
-        ctx.stage("judge", source=label, events=r["events"], violations=r["nviol"], deviations=r["devcount"])
+        stage(ctx, "judge", source=label, events=r["events"], violations=r["nviol"], deviations=r["devcount"])
         for fid, n in r["devcount"].items():
             lib.note_known(ctx, fid, n)
             ctx.cov["deviations_observed"][fid] = ctx.cov["deviations_observed"].get(fid, 0) + n
         classify(ctx, r["violations"], dict(sections)[name], label)
-    ctx.stage("judge-pass", events=res["_total"]["events"], chunks=res["_total"]["chunks"], wall_s=res["_total"]["wall_s"])
+    stage(ctx, "judge-pass", events=res["_total"]["events"], chunks=res["_total"]["chunks"], wall_s=res["_total"]["wall_s"])
     ctx.cov["design_level"]["witnesses_replayed"] = {"programs": nwit, "deviations_on_real_code": res["witness"]["devcount"], "violations": res["witness"]["nviol"]}
     gone = sorted(f for f in model if f in kd and f not in res["witness"]["devcount"])
     if gone:
@@ -818,9 +829,9 @@ def run(ctx):
     st = selftest_verdict(ctx, res, sample, picks, ifd)
     st["corrupt_quiescent_snapshot_not_linearizable"] = lin_selftest
     if kd:
-        explained = sum(res["st_sig"]["devcount"].values())
+        explained = sum(sig["devcount"].values())
         # an event explained by two findings at once is ONE violation without them
-        st["deviations_rejected_when_not_listed"] = res["st_sig"]["nviol"] == 0 and 0 < nodev["nviol"] <= explained
+        st["deviations_rejected_when_not_listed"] = sig["nviol"] == 0 and 0 < nodev["nviol"] <= explained
         st["deviation_events_in_sample"] = nodev["nviol"]
     else:
         st["deviations_rejected_when_not_listed"] = "no finding is listed as known"
